@@ -84,14 +84,14 @@ def present(rec_full):
 
 
 def relate(kind, run_a, text_a, run_b, text_b, T=identity, eps=2, scope_all_a=False, with_bonds=False, with_hyd=False,
-           textcmp=False, epsc=1, meta=None, present=False, sc_filter=None, roworder=False):
+           textcmp=False, epsc=1, meta=None, present=False, sc_filter=None, roworder=False, ion_filter=None, conv_b=1):
     rec_a, idx_a = observe.observe(run_a, text_a, with_input=False, all_groups=False)
     rec_b, idx_b = observe.observe(run_b, text_b, with_input=False, all_groups=False)
     remap = _remap_builder(idx_a, idx_b, T)
     rel = {"kind": kind, "ca": rec_a["confs"], "cb": rec_b["confs"], "A": _groups(rec_a, remap), "B": _groups(rec_b),
            "eps": eps, "epsc": epsc, "scope": [], "hasbonds": 0, "bondsA": [], "bondsB": [], "hashyd": 0, "hydA": [], "hydB": [],
            "textcmp": 0, "textsame": 0, "presentA": [], "presentB": [], "scA": [], "scB": [], "rowcmp": 0, "rowsA": [], "rowsB": [],
-           "meta": meta or {}}
+           "ion": [], "conv": conv_b, "meta": meta or {}}
     if scope_all_a:
         rel["scope"] = sorted(remap(i) for i, r in enumerate(idx_a.recs) if r is not None)
     if with_bonds:
@@ -144,6 +144,30 @@ def relate(kind, run_a, text_a, run_b, text_b, T=identity, eps=2, scope_all_a=Fa
                 if ps:
                     sc.append([(rm(idx.gid(g.atom)) if rm else idx.gid(g.atom)), sorted(ps)])
             rel["sc" + tag[-1]] = sorted(sc)
+    if present and ion_filter is not None:
+        # iterative acid-base pairs hydrogen-bonded in A (value by the geometric rule, not an exception value) of which
+        # exactly one member titrates in B: <<present in B, acid pKa, base pKa, hb>> with B's pKa values
+        ca_ = run_a.mol.conformations[run_a.mol.conformation_names[0]]
+        cb_ = run_b.mol.conformations[run_b.mol.conformation_names[0]]
+        gb_ = {idx_b.gid(g.atom): g for g in cb_.groups}
+        seen_ = set()
+        for g in ca_.groups:
+            for d in g.determinants["sidechain"]:
+                h = getattr(d.group, "group", d.group)
+                if getattr(h, "atom", None) is None or not ion_filter(g, h, d.value):
+                    continue
+                ka, kh = remap(idx_a.gid(g.atom)), remap(idx_a.gid(h.atom))
+                if (min(ka, kh), max(ka, kh)) in seen_ or ka not in gb_ or kh not in gb_:
+                    continue
+                seen_.add((min(ka, kh), max(ka, kh)))
+                g2, h2 = gb_[ka], gb_[kh]
+                if bool(g2.titratable) == bool(h2.titratable):
+                    continue
+                pres = any(getattr(x.group, "group", x.group) is h2 for x in g2.determinants["sidechain"]) or \
+                    any(getattr(x.group, "group", x.group) is g2 for x in h2.determinants["sidechain"])
+                acid, base = (g2, h2) if g.charge < 0 else (h2, g2)
+                rel["ion"].append([1 if pres else 0, int(round(acid.pka_value * 1e6)), int(round(base.pka_value * 1e6)),
+                                   int(round(abs(d.value) * 1e6))])
     return rel
 
 
